@@ -385,3 +385,12 @@ Definition bhrz03_of (n : nat) (eqs : list bool) (gs : list gsum) : bhrz03_cert 
      b_rays := fold_left (fun v g => match g with GSRay z => bump z v | _ => v end) gs (repeat 0 n) |}.
 Definition h79_of (n : nat) (eqs : list bool) : h79_cert :=
   {| h_affine_dim := n - length (filter (fun b => b) eqs); h_num_constraints := length eqs |}.
+
+(* boolean forms of the growth precondition, for the judge *)
+Definition bhrz03_grows_b (x p : bhrz03_cert) : bool :=
+  Nat.leb (b_affine_dim x) (b_affine_dim p) && Nat.leb (b_lin_space_dim x) (b_lin_space_dim p).
+Definition h79_grows_b (x p : h79_cert) : bool := Nat.leb (h_affine_dim x) (h_affine_dim p).
+Lemma bhrz03_grows_b_ok x p : bhrz03_grows_b x p = true <-> bhrz03_grows x p.
+Proof. unfold bhrz03_grows_b, bhrz03_grows. rewrite andb_true_iff, !Nat.leb_le. tauto. Qed.
+Lemma h79_grows_b_ok x p : h79_grows_b x p = true <-> h79_grows x p.
+Proof. unfold h79_grows_b, h79_grows. apply Nat.leb_le. Qed.
